@@ -17,6 +17,31 @@ pub fn check(f: &Facts, stats: &mut Stats) -> CheckResult {
         Ok(o) => o,
         Err(e) => return fail("construct", e),
     };
+    check_on(&ont, f, &via, stats)?;
+    // one small ontology in three also yields a sub-ontology (what it remembers of its source must not show in
+    // distances and paths): the same questions are asked of it, against the facts restricted to the retained terms
+    let m = Model::new(f);
+    let h = f.canonical_hash();
+    if m.len() >= 3 && m.len() <= 22 && h % 3 == 0 {
+        let (root, leaves) = super::common::sub_request(&m, (h >> 8) as u16, [(h >> 24) as u16, (h >> 40) as u16, (h >> 48) as u16]);
+        let sub = guarded(|| {
+            let rt = ont.hpo(root).unwrap();
+            let lt: Vec<hpo::HpoTerm> = leaves.iter().map(|l| ont.hpo(*l).unwrap()).collect();
+            ont.sub_ontology(rt, lt)
+        });
+        if let Ok(Ok(sub)) = sub {
+            let kept: std::collections::BTreeSet<u32> = sub.hpos().map(|t| t.id().as_u32()).collect();
+            if kept.iter().all(|t| m.has(*t)) {
+                let expected = super::common::restricted_facts(f, &kept);
+                stats.label("sub-ontology");
+                return check_on(&sub, &expected, "sub_ontology", stats);
+            }
+        }
+    }
+    Ok(())
+}
+
+fn check_on(ont: &hpo::Ontology, f: &Facts, via: &str, stats: &mut Stats) -> CheckResult {
     stats.count(&format!("path:{via}"), 1);
     if f.terms.iter().any(|t| t.obsolete) {
         stats.label("obsolete-terms");
@@ -222,7 +247,7 @@ impl Property for C11 {
         "C11"
     }
     fn rule(&self) -> String {
-        "Generated: acyclic graphs (Builder, or own v3 bytes with obsolete / replaced terms) weighted toward chains with shortcuts to a much higher ancestor, diamond ladders (ties), several roots and detached terms (<=16 terms quick / 22 thorough); ALL ordered pairs. Oracle: upward BFS distances u(x,c) on the facts; distance_to_ancestor = u or None; path_to_ancestor is a chain of parent links of exactly that length ending in the ancestor; distance_to_term = min over common ancestors (terms included) of u(a,c)+u(b,c), symmetric, None iff no common ancestor; for a != b path_to_term exists iff the distance does, every step is a parent or child link, it ends in b and has exactly distance steps (validity predicate: ties admit several paths); Distance similarity = 1/(d+1) or 0. evaluations = ordered pairs. Non-trivial = graph with a pair where one term is an ancestor of the other but a strictly shorter route exists over a higher common ancestor, or a tie between two routes; distinct by canonical facts.".into()
+        "Generated: acyclic graphs (Builder, or own v3 bytes with obsolete / replaced terms) weighted toward chains with shortcuts to a much higher ancestor, diamond ladders (ties), several roots and detached terms (<=16 terms quick / 22 thorough); ALL ordered pairs; one ontology in three additionally yields a sub-ontology (generated root and leaves), which is asked the same questions against the facts restricted to the retained terms. Oracle: upward BFS distances u(x,c) on the facts; distance_to_ancestor = u or None; path_to_ancestor is a chain of parent links of exactly that length ending in the ancestor; distance_to_term = min over common ancestors (terms included) of u(a,c)+u(b,c), symmetric, None iff no common ancestor; for a != b path_to_term exists iff the distance does, every step is a parent or child link, it ends in b and has exactly distance steps (validity predicate: ties admit several paths); Distance similarity = 1/(d+1) or 0. evaluations = ordered pairs. Non-trivial = graph with a pair where one term is an ancestor of the other but a strictly shorter route exists over a higher common ancestor, or a tie between two routes; distinct by canonical facts.".into()
     }
     fn assumptions(&self) -> Vec<String> {
         vec!["is_a graph acyclic; path_to_term(a,a) (documented to return [a]) is outside the property and not checked".into()]
@@ -234,7 +259,7 @@ impl Property for C11 {
         }
     }
     fn required_labels(&self, _tier: Tier) -> Vec<&'static str> {
-        vec!["nontrivial", "obsolete-terms", "shorter-route-over-higher-ancestor", "tie", "no-common-ancestor", "diamond", "depth>255", "annotated-with-all-kinds", "ancestors>30", "bulk>65535-terms"]
+        vec!["nontrivial", "obsolete-terms", "shorter-route-over-higher-ancestor", "tie", "no-common-ancestor", "diamond", "depth>255", "annotated-with-all-kinds", "ancestors>30", "bulk>65535-terms", "sub-ontology"]
     }
     fn run_generated(&self, tier: Tier, seed: u64, n: u64, stats: &mut Stats) -> Option<(Value, Failure)> {
         run_typed(strategy(tier), seed, n, stats, check)
